@@ -1,7 +1,7 @@
 (* line driver for the C19 models (extracted: config_model.ml).  First argument = mode.
 
    case syntax (space separated tokens; strings are hex UTF-16 code units, "-" = empty):
-     ini case:      E<tty_out><tty_err> R<n> {name wild type enabled}*n X<rx> P<n> {tok}*n B<9 x -|0|1>
+     ini case:      E<tty_out><tty_err> R<n> {name wild(0 exact, 1 prefix, 2 contains) type enabled}*n X<rx> P<n> {tok}*n B<9 x -|0|1>
                     Y<syslog ident> F<path> Z<size|-> C<count|-> M<n> {type cat text tid time}*n
      one-line case: E<tty_out><tty_err> F<path> Z<size> C<count> B<startup daily compress async> M<n> {msg}*n
        type: d w c f i (debug warning critical fatal info), rule type '-' = untyped
@@ -78,7 +78,7 @@ let parse_ini toks =
   let nr = int_of_string (expect toks 'R') in
   let rules = List.init nr (fun _ ->
     let nm = take toks in let w = take toks in let t = take toks in let en = take toks in
-    { r_name = unhex nm; r_wild = w = "1"; r_type = (if t = "-" then None else Some (ty t.[0])); r_enabled = en = "1" }) in
+    { r_name = unhex nm; r_kind = (match w with "1" -> KPrefix | "2" -> KContains | _ -> KExact); r_type = (if t = "-" then None else Some (ty t.[0])); r_enabled = en = "1" }) in
   let x = expect toks 'X' in
   let rx = if x = "-" then None else Some (match x.[0] with 'c' -> RxContains (unhex (after2 x)) | 'p' -> RxPrefix (unhex (after2 x)) | _ -> RxSuffix (unhex (after2 x))) in
   let np = int_of_string (expect toks 'P') in
